@@ -20,6 +20,10 @@
     - NewKM/NewBPM + Verify on a file;
     - KMHasBPMHash / BPMKeyMatchKMHash with fiano's hand-written ValidateBPMKey
       for both generations (hash = H alg (Key.Data[4:]), i.e. the modulus only);
+    - GetBPMPubHash on a KM OBJECT in an arbitrary state ([km_place]: replaces
+      BGkm.BPKey / the whole CBNTkm.Hash list on success, leaves the object alone
+      on an error) and histories of such calls interleaved with operations that
+      do not concern the hash ([kmstep], [km_run]);
     - writePrivKeyToFile/encryptPrivFile and DecryptPrivKey. *)
 From CSS Require Import Lib.Base.
 
